@@ -75,7 +75,7 @@ impl OperationControl for GreedyFixed {
     ) -> Box<dyn Iterator<Item = usize> + 'a> {
         let mut guard = matcher.search.len();
         if self.max < usize::MAX {
-            guard = guard.min(position + self.len * self.max)
+            guard = guard.min(position.saturating_add(self.len.saturating_mul(self.max)))
         }
         if position >= guard && self.min > 0 {
             return Box::new(std::iter::empty());
